@@ -287,3 +287,9 @@ MANIFEST_ENTRY = dict(
     note='Bounded skeleton family (tier B, <=4 states + goal); optimality lemmas not needed on acyclic skeletons, uniqueness of fixed points trusted on the cyclic one.',
 )
 END_MANIFEST_ENTRY = True
+
+
+SENTINELS = globals().get('SENTINELS', []) + [
+    Sentinel('pseudo-terminal-value-of-absorbing-successors-is-bootstrapped', 'msdm.algorithms.laostar', '                        if self.mdp.is_absorbing(ns):\n                            rf[si, ai, -1] += prob*reward',
+             '                        if False:\n                            rf[si, ai, -1] += prob*reward', ['re:^matrices/', 're:^plan_on/l3/oa-on/constant']),
+]
